@@ -52,9 +52,9 @@ BOUNDS = {
         # lengths at and across the 65536-element block boundaries, every quantity in every array form
         scale=dict(ScaleLens={65535, 65536, 65537, 131072, 1048576}),
         threads=dict(nthreads=6, rounds=4, n=120000),
-        # sessions over twin objects in one process: every 4-step session over 4 twins, every 5-step session over 2
+        # sessions over twin objects in one process: every 4-step session over 4 twins (3 objects), every 5-step session over 2 twins (2 objects)
         world=[dict(KIdx={1, 2, 3, 4}, MaxSteps=4, Kinds={"copy", "pickle"}, Cover=True),
-               dict(KIdx={1, 4}, MaxSteps=5, Kinds={"deepcopy", "pickle"}, Cover=True)],
+               dict(KIdx={1, 4}, MaxSteps=5, Kinds={"pickle"}, MaxObj=2, Cover=True)],
         nrandom=300),
     "thorough": dict(
         ctor=dict(OmIdx=ALL_OM, CurvIdx=ALL_CURV, HIdx=ALL_H, HMix=False),
@@ -421,15 +421,16 @@ def world_session(job):
                     o["calls"] = battery(obj)
                     with np.errstate(all="ignore"):
                         o["dc"] = float(obj.Dc(za, zb)).hex()
-                    # the exact oracle at the twin's own parameters (the binary64 numbers it was given, as exact rationals)
-                    from fractions import Fraction
-                    k, _ = _birth(job["steps"], s["o"])
-                    g = twin_given(args, twin_kwargs(args, f, k))
-                    pars = {n: [Fraction(v).numerator, Fraction(v).denominator] for n, v in zip(("H0", "DH", "flat", "om", "ol", "ok"), g)}
-                    ev = lat.Evaluator(obj, lat.frac(job["a"]), lat.frac(job["b"]), NODER, pars)
-                    o["res"], o["resinfo"] = {}, {}
-                    for name in WORLD_IDENTS:
-                        o["res"][name], o["resinfo"][name] = ev.residual(job["idents"][name])
+                    if job.get("oracle"):
+                        # the exact oracle at the twin's own parameters (the binary64 numbers it was given, as exact rationals)
+                        from fractions import Fraction
+                        k, _ = _birth(job["steps"], s["o"])
+                        g = twin_given(args, twin_kwargs(args, f, k))
+                        pars = {n: [Fraction(v).numerator, Fraction(v).denominator] for n, v in zip(("H0", "DH", "flat", "om", "ol", "ok"), g)}
+                        ev = lat.Evaluator(obj, lat.frac(job["a"]), lat.frac(job["b"]), NODER, pars)
+                        o["res"], o["resinfo"] = {}, {}
+                        for name in WORLD_IDENTS:
+                            o["res"][name], o["resinfo"][name] = ev.residual(job["idents"][name])
                 else:
                     raise ValueError(s["op"])
             except Exception as e:  # noqa
@@ -527,13 +528,13 @@ def run_world(tree, items):
                 if key not in refkeys:
                     refkeys[key] = len(jobs)
                     jobs.append({"args": c["args"], "f": c["f"], "a": c["a"], "b": c["b"], "steps": _birth_session(key[2], key[3]),
-                                 "idents": idents})
+                                 "idents": idents, "oracle": True})
     res = fresh_world(tree, jobs)
     recs = []
     for n, (i, c) in enumerate(items):
         obs, info, lastdc = [], [], {}
         for s, o in zip(c["steps"], res[n]):
-            ob = {"err": o["err"], "dev": 0, "same_params": True, "same_calls": True, "res": o.get("res") or dict(NORES)}
+            ob = {"err": o["err"], "dev": 0, "same_params": True, "same_calls": True, "res": dict(NORES)}
             if s["op"] == "probe" and o["err"] == "none":
                 k, kinds = _birth(c["steps"], s["o"])
                 ref = res[refkeys[(json.dumps(c["args"], sort_keys=True), c["f"], k, kinds)]][-1]
@@ -543,12 +544,14 @@ def run_world(tree, items):
                 ob["dev"] = -1 if min(devs) < 0 else max(devs)
                 ob["same_params"] = bool(ref["err"] == "none" and ref["params"] == o["params"])
                 ob["same_calls"] = bool(ref["err"] == "none" and ref["calls"] == o["calls"] and ref["dc"] == o["dc"])
+                # identity residuals of the fresh-world twin (evaluated once per twin); they are the probe's own when same_calls
+                ob["res"] = ref["res"] if ref["err"] == "none" else {n: [-1, 0] for n in WORLD_IDENTS}
                 lastdc[s["o"]] = float.fromhex(o["dc"])
                 info.append({"step": len(obs) + 1, "o": s["o"], "twin": k, "given": [repr(w) for w in want], "got": [repr(x) for x in got],
                              "dc": repr(lastdc[s["o"]]), "fresh_world_dc": repr(float.fromhex(ref["dc"])) if ref["err"] == "none" else ref["err"],
                              "battery_differs": [BATTERY[j][0] for j in range(len(BATTERY))
                                                  if ref["err"] == "none" and ref["calls"][j] != o["calls"][j]],
-                             "residuals": o.get("resinfo")})
+                             "fresh_world_residuals": ref.get("resinfo")})
             elif s["op"] == "probe":
                 ob["dev"], ob["same_params"], ob["same_calls"] = -1, False, False
             obs.append(ob)
